@@ -43,7 +43,61 @@ REAL_VS_STUB = {
 ASSUMPTIONS = ["an unmasked inner pack {RemoveFront, Expand, atoms} can specify every non-empty class of the words world"]
 
 
+def gen_reverse_needed(rng, tier):
+    """Directed scenario: the verified class V = W(a) cannot be finished with forward rules, because no
+    strategy of its pack applies to its child Y = W(ab); Y is only obtainable as W(aab) / {a} (the pattern
+    'abc' makes RemoveFront cut W(aab) there), so the retry with reverse rules is needed - and it has to
+    re-expand classes that already have rules in the specification."""
+    a, b, c = rng.choice([0, 1]), rng.choice([0, 1]), rng.choice([0, 1])
+    y = [a, b]
+    pats = [y + [c]]
+    tracked = [] if rng.random() < 0.5 else [rng.choice([0, 1])]
+    world = {"alphabet": [0, 1], "patterns": pats, "prefix": [], "tracked": tracked, "compress": rng.random() < 0.3, "marks": 1}
+    cls = WW.make_class(world)
+    v = cls.replace(prefix=(a,))
+    inner = {
+        "initial": [],
+        "inferral": [],
+        # Expand first, RemoveFront after it in the same set (so that W(aa) is expanded to W(aab) before its
+        # front is removed); Expand is bounded by a maximal prefix length, which keeps the universe finite
+        "expansion": [
+            [
+                {"t": "Expand", "d": 1, "mask": [0, 100, rng.choice([3, 4, 5]), [y]], "lazy": rng.random() < 0.2},
+                {"t": "RemoveFront", "mask": [0, 100, 99, [y]], "lazy": rng.random() < 0.2},
+            ]
+        ],
+        "ver": [{"t": "WordAtom"}],
+        "name": "inner",
+    }
+    key = [list(v.prefix), [list(p) for p in v.patterns], list(v.alphabet), False, list(v.tracked)]
+    pack = {
+        "initial": [{"t": "RemoveFront", "mask": None, "lazy": False}],
+        "inferral": [],
+        "expansion": [[{"t": "Expand", "d": 1, "mask": None, "lazy": False}]],
+        "ver": [{"t": "FiatVerified", "keys": [key], "salt": 0, "pct": 0, "pack_spec": inner}, {"t": "WordAtom"}],
+        "symmetries": [],
+        "iterative": False,
+    }
+    return {
+        "world": world,
+        "pack": pack,
+        "config": {"ruledb": rng.choice(["default", "forget", "forest", "forest_noreverse"]), "expand_verified": False, "debug": False},
+        "clock": {"policy": "frozen", "seed": rng.randrange(1 << 30), "stall": 64, "skew_p": 0.0},
+        "rng": {"policy": rng.choice(["seeded", "first", "last"]), "seed": rng.randrange(1 << 30)},
+        "ops": [["auto", {"perc": 1, "smallest": False, "status_update": None, "budgets": [], "tail_budget": None}]],
+        "nmax": 6,
+        "order_seed": rng.randrange(1 << 30),
+        "fault_free": True,
+        "inner_masked": True,
+        "directed": "reverse_needed",
+        "clock2": {"policy": "jitter", "seed": rng.randrange(1 << 30), "stall": rng.choice([0, 1, 8, 64]), "skew_p": rng.choice([0.0, 0.05])},
+        "limited_first": rng.choice([None, None, 0.0, 0.5]),
+    }
+
+
 def gen(rng, tier):
+    if rng.random() < 0.12:
+        return gen_reverse_needed(rng, tier)
     R = S.gen_search(rng, tier, flavour=ID)
     R["ops"] = [["auto", {"perc": 1, "smallest": rng.random() < 0.2, "status_update": None, "budgets": [], "tail_budget": None}]]
     R["config"]["debug"] = False
@@ -102,6 +156,44 @@ def rule_objects(spec):
     for r in spec.rules_dict.values():
         walk(r)
     return seen
+
+
+def standalone_check(spec, ctx):
+    """A masked inner pack may really be unable to specify a verified class.  What can still be
+    said: the expansion searches a universe that contains everything an ordinary search of that
+    class with the same pack (forest DB, reverse rules on, verified classes expanded) explores,
+    plus the other rules of the specification - so if the ordinary search finds a specification,
+    the expansion must not fail.  The loop of expand_verified is replayed to find the class at
+    which it gave up."""
+    from comb_spec_searcher import CombinatorialSpecificationSearcher
+    from comb_spec_searcher.rule_db import RuleDBForest
+
+    cur = spec
+    for _ in range(20):
+        try:
+            cls = next(cur.unexpanded_verified_classes())
+        except StopIteration:
+            return
+        pack = cur.rules_dict[cls].pack()
+        try:
+            cur = cur.expand_comb_class(cls, pack, reverse=False, continue_expanding_verified=False)
+            continue
+        except SpecificationNotFound:
+            pass
+        try:
+            cur = cur.expand_comb_class(cls, pack, reverse=True, continue_expanding_verified=True)
+            continue
+        except SpecificationNotFound:
+            css = CombinatorialSpecificationSearcher(cls, pack, ruledb=RuleDBForest(reverse=True), expand_verified=True)
+            try:
+                css.auto_search()
+            except SpecificationNotFound:
+                ctx.probe("standalone_search_agrees_not_found")
+                return
+            raise Violation(
+                "C19:expansion-not-found-but-standalone-search-succeeds",
+                f"expanding {cls} with its pack failed (also with reverse rules) although an ordinary forest search of that class with the same pack finds a specification",
+            )
 
 
 def execute(R, ctx):
@@ -181,6 +273,11 @@ def execute(R, ctx):
             ctx.probe("expansion_not_found")
             if not R["inner_masked"]:
                 raise Violation("C19:expansion-not-found", f"expand_verified raised SpecificationNotFound although the supplied pack is unmasked (start {start}, verified classes {todo[:3]})")
+            if R.get("directed") and todo:
+                # this scenario was checked by hand (DESIGN.md 6.19): the first attempt must fail and the
+                # retry with reverse rules must succeed
+                raise Violation("C19:directed-reverse-expansion-not-found", f"expand_verified failed on the directed reverse-needed scenario (start {start}, verified {todo[:1]})")
+            standalone_check(spec, ctx)
             original_unchanged("after a failed expand_verified")
             ctx.set_state(("notfound", repr(start), R["config"]["ruledb"]))
             ctx.sim_seconds = sim.clock.elapsed() + clock2.elapsed()
@@ -198,6 +295,8 @@ def execute(R, ctx):
                 r = before_objs[next(iter(shared))]
                 raise Violation("C19:shared-rule-object", f"the expanded specification shares a rule object with the original: {type(r).__name__} for {r.comb_class}")
             ctx.probe("expanded")
+            if R.get("directed"):
+                ctx.probe("directed_expanded")
             if any(isinstance(r, ReverseRule) or (isinstance(r, EquivalenceRule) and isinstance(r.original_rule, ReverseRule)) for r in rule_objects(new).values()):
                 ctx.probe("reverse_rule_in_expanded_spec")
         specval.check_counts(new, start, R["nmax"], R["order_seed"] + 1, ctx, tag="C19")
